@@ -168,6 +168,8 @@ def run(tier, seed, model):
             camp.samples.append({"viewer_version": version.decode(), "chunks": len(sched),
                                  "viewer_bytes": len(p.to_server()), "server_bytes": len(p.to_viewer()), "server": dict(srv.notes)})
     multi_session(camp, rng, 12 if tier == "quick" else 200)
+    if not camp.oracle_failures:
+        session_ends(camp, rng, 40 if tier == "quick" else 1500)
     if model is not None:
         theorem_samples(camp, model, rng, 40 if tier == "quick" else 1500)
     if model is not None:
@@ -332,6 +334,57 @@ def multi_session(camp, rng, rounds):
         finally:
             if tmp:
                 shutil.rmtree(tmp, ignore_errors=True)
+
+
+def session_ends(camp, rng, n):
+    """either side says its last words and closes while the other side reads slowly: what was sent still arrives, in full,
+    before the close (a graceful close, never a reset that discards the send buffer)"""
+    from proxyreal import SlowTransport
+    for i in range(n):
+        srv, version, pwreq, sched, _ = one_session(rng)
+        if srv.findings or not srv.established:
+            continue
+        p = Proxy(password_required=pwreq, transport_cls=SlowTransport)
+        why = drive(p, sched)
+        if why:
+            continue                       # (judged by the main stream)
+        who = rng.choice(["viewer", "viewer", "server"])
+        tail_v = b"".join(rng.choice([key_event(rng.randrange(2), rng.randrange(32, 127)), pointer_event(rng.randrange(8), rng.randrange(50), rng.randrange(50)),
+                                      struct.pack("!BxxxI", 6, 2000) + bytes(2000)]) for _ in range(rng.randrange(1, 6)))
+        tail_s = b"".join(rng.choice([b"\x02", struct.pack("!BxxxI", 3, 500) + bytes(500)]) for _ in range(rng.randrange(1, 4)))
+        sent_v, sent_s = p.to_server(), p.to_viewer()
+        # the slow reader has taken only part of what was written so far
+        p.server_transport.drain(rng.randrange(0, len(p.server_transport.pending) + 1))
+        p.viewer_transport.drain(rng.randrange(0, len(p.viewer_transport.pending) + 1))
+        err = None
+        if who == "viewer":
+            err = p.from_viewer(tail_v)
+            sent_v += tail_v
+            err = err or p.lose()
+            leg, want, name = p.server_transport, sent_v, "server"
+        else:
+            err = p.from_server(tail_s)
+            sent_s += tail_s
+            try:
+                from twisted.internet import error
+                from twisted.python.failure import Failure
+                p.client_side.connectionLost(Failure(error.ConnectionDone()))
+            except Exception as e:  # noqa: BLE001
+                err = err or e
+            leg, want, name = p.viewer_transport, sent_s, "viewer"
+        camp.evaluations += 1
+        camp.count("session-end:" + who + "-closes")
+        camp.nontrivial.add(("end", i, who))
+        why = None
+        if err is not None:
+            why = f"raised {type(err).__name__}: {err}"
+        elif leg.closed != "closed" or leg.delivered != want:
+            why = (f"the {name} leg was {leg.closed or 'left open'} with {len(leg.delivered)} of the {len(want)} bytes sent to it delivered"
+                   + (" - the send buffer was discarded" if leg.closed == "aborted" else ""))
+        if why:
+            camp.oracle_failures.append({"kind": "oracle", "property": "C16", "case": {"pwreq": pwreq, "sched": [[s_, d.hex()] for s_, d in sched], "session_end": who},
+                                         "what": f"the {who} sends its last {len(tail_v if who == 'viewer' else tail_s)} bytes and closes while the {name} reads slowly: {why}"})
+            return
 
 
 def findings(camp):
